@@ -468,6 +468,14 @@ class Machine:
         for rx_, h_ in self.hooks:
             if rx_.search(nm):
                 return h_(self, fn, c, a)
+        if nm == "<T as core::convert::Into<U>>::into" and len(c.ga or []) == 2:
+            # blanket Into: the crate's own `impl From<T> for U`
+            g = self.P.fn_opt("<%s as core::convert::From<%s>>::from" % (c.ga[1], c.ga[0]))
+            if g is None:
+                cand = [f for pth, fs in self.P.by_path.items() for f in fs if pth.endswith("<impl core::convert::From<%s> for %s>::from" % (c.ga[0], c.ga[1]))]
+                g = cand[0] if len(cand) == 1 else None
+            if g is not None:
+                return self.call_fn(g, a)
         if nm in ("core::cmp::min", "core::cmp::max") and all(isinstance(x, int) and not isinstance(x, bool) for x in a[:2]):
             return min(a[0], a[1]) if nm.endswith("min") else max(a[0], a[1])
         if re.search(r"ChunksExact(::)?<'\w+, T>(>)?::remainder$", nm):
@@ -645,6 +653,33 @@ class Machine:
         if m:
             w = int(m.group(2))
             return lanes(a[0], w)[imm[0]]
+        m = re.match(r"^core::num::<impl ([ui])(\d+)>::(wrapping_neg)$", nm)
+        if m:
+            w = int(m.group(2))
+            return B.sub(B.const(0, w), self.scalar_bits(a[0], w))
+        # operator traits of the primitive integers on references: `acc |= b` with b: &u64, `x ^ y` with x, y: &u64
+        m = re.match(r"^<&?([ui])(\d+) as core::ops::(BitOr|BitXor|BitAnd|Add|Sub)(Assign)?<&?[ui]\d+>>::\w+$", nm)
+        if m:
+            w = int(m.group(2))
+
+            def val(x):
+                while isinstance(x, tuple) and x and x[0] == "lref":
+                    x = x[1][x[2]]
+                return self.scalar_bits(x, w)
+            op_ = m.group(3)
+            if m.group(4):
+                tgt = a[0]
+                cur = val(tgt)
+                y = val(a[1])
+            else:
+                cur, y = val(a[0]), val(a[1])
+            r = {"BitOr": B.or_, "BitXor": B.xor, "BitAnd": B.and_, "Add": B.add, "Sub": B.sub}[op_](cur, y)
+            if m.group(4):
+                if not (isinstance(tgt, tuple) and tgt and tgt[0] == "lref"):
+                    raise Unsupported("compound assignment through %r" % (str(tgt)[:30],))
+                tgt[1][tgt[2]] = r
+                return None
+            return r
         m = re.match(r"^core::num::<impl ([ui])(\d+)>::(wrapping_add|wrapping_sub|rotate_right|rotate_left|swap_bytes|to_be|to_le|from_be|from_le)$", nm)
         if m:
             w = int(m.group(2))
@@ -817,7 +852,7 @@ class Machine:
                 return self.slice_iter(a[0])
             except Unsupported:
                 pass
-        m_it = re.match(r"^core::iter::(?:traits::iterator::)?Iterator::(rev|zip|enumerate|step_by|take|skip|copied|cloned|map|for_each|fold|by_ref)$", nm)
+        m_it = re.match(r"^core::iter::(?:traits::iterator::)?Iterator::(rev|zip|enumerate|step_by|take|skip|copied|cloned|map|for_each|fold|by_ref)$", nm) or re.search(r" as core::iter::(?:traits::iterator::)?Iterator>::(rev|zip|enumerate|step_by|take|skip|copied|cloned|map|for_each|fold|by_ref)$", nm)
         if m_it:
             op_ = m_it.group(1)
             it = self.it_of(a[0])
